@@ -560,6 +560,13 @@ spifopt_parse(int argc, char *argv[])
                 NEXT_ARG();
             }
         } else {
+            if (!*opt) {
+                /* A lone '-' has no option letter, and '\0' would match every
+                   option that has no short form. */
+                libast_print_error("unrecognized option -\n");
+                CHECK_BAD();
+                NEXT_ARG();
+            }
             if ((j = find_short_option(*opt)) == -1) {
                 NEXT_LETTER();
             }
